@@ -42,7 +42,7 @@ Check ==
   IF ~("dash_ops" \in DOMAIN e) THEN PrintT(<<"NOOPS", i, e.id>>)
   ELSE LET K == e.k
            sps == Subpaths(e.ops)
-           ok == \A k \in 1..Len(sps) : SubpathOK(sps[k])
+           ok == \A k \in 1..Len(sps) : SubpathOK(sps[k]) /\ SubpathKOK(sps[k], K)
            spec0 == DashedSubpaths(sps, e.style.dash, e.style.dash_offset, K)
            specN == {[pts |-> Dedup(spec0[k].pts), closed |-> spec0[k].closed] : k \in 1..Len(spec0)}
            spec == {p \in specN : Len(p.pts) >= 2}
